@@ -331,6 +331,10 @@ def run_cv(case, out, mbi, dom, sizes):
     V1 = {cl: mk(cl) for cl in cls}; V2 = {cl: mk(cl) for cl in cls}
     X = CliqueVector({cl: Factor(dom.project(cl), V1[cl].copy()) for cl in cls})
     Y = CliqueVector({cl: Factor(dom.project(cl), V2[cl].copy()) for cl in cls})
+    if case['cv_seed'] % 2 and op in ('cv_add', 'cv_sub', 'cv_dot'):
+        # the second operand holds the same functions, stored with reversed axis order under the same keys
+        Y = CliqueVector({cl: Factor(dom.project(cl), V2[cl].copy()).transpose(tuple(reversed(cl))) for cl in cls})
+        out.classes.append('cv_transposed_storage')
     c = case['scalar']
     out.nontrivial = len(cls) >= 2
 
@@ -389,5 +393,6 @@ def run_cv(case, out, mbi, dom, sizes):
         out.nontrivial = len(absorbed) >= 1 and len(cls) >= 2
     if out.ok and op not in ('cv_combine',):
         for cl in cls:
-            if not np.array_equal(X[cl].values, V1[cl]) or not np.array_equal(Y[cl].values, V2[cl]):
+            yv = Y[cl].values if tuple(Y[cl].domain.attrs) == tuple(cl) else Y[cl].transpose(cl).values
+            if not np.array_equal(X[cl].values, V1[cl]) or not np.array_equal(yv, V2[cl]):
                 out.fail('mutated:%s' % op, 'pure CliqueVector operation modified an operand'); break
